@@ -191,7 +191,7 @@ def run(tier):
         return r, hunks, rs, shunks
 
     res = core.pmap(one, plans)
-    events, meta = [], []
+    events, meta, evrun = [], [], []
     anomalies = 0
     for plan, (r, hunks, rs, shunks) in zip(plans, res):
         cases, thr, re = plan[:3]
@@ -221,6 +221,7 @@ def run(tier):
                         sb.append([i if left else 0, j if right else 0])
             events.append({"run": len(events), "thr": thr, "re": re, "ms": mrec, "ps": prec, "rows": sb})
             meta.append((ms, ps, thr, re))
+            evrun.append(r)
     n = max(1, min(8, len(events) // 8000 + 1))
     chunks = [events[i::n] for i in range(n)]
     outs = core.pmap(lambda ch: tlc.validate_trace("Trace_Emph", ch, heap="4g"), chunks, jobs=n)
@@ -240,7 +241,7 @@ def run(tier):
             V.violation("run-longer-than-line-buffer", f"{f['why']}: 40 removed and 40 added lines at max distance 1, default line buffer", {"why": f["why"]})
             continue
         V.violation(f"{f['why']}:{thr}:{re}:{ms}:{ps}", f"{f['why']}: removed {ms!r} added {ps!r} (max distance {thr}%, regex {re})",
-                    {"minus": ms, "plus": ps, "thr": thr, "re": re, "event": events[f["run"]]})
+                    {"minus": ms, "plus": ps, "thr": thr, "re": re, "event": events[f["run"]], "run": evrun[f["run"]].to_json()})
     rc = V.finish()
     core.write_evidence(PID, tier, "model_checking", {
         "states": sum(design.values()), "transitions": sum(design.values()), "design_models": design, "monitor_states": states,
